@@ -29,7 +29,7 @@ func (p *propC13) Assumptions() []string {
 	}
 }
 func (p *propC13) ProbeNames() []string {
-	return []string{"redefinition switching byte order", "redefinition switching message", "redefinition changing field list", "16 types live at once", "compressed record after redefinition", "undefined type hit", "undefined compressed type hit", "same layout re-emitted with the other byte order", "identical definition re-emitted", "same fields re-emitted with developer fields toggled", "undefined type in the first data record"}
+	return []string{"redefinition switching byte order", "redefinition switching message", "redefinition changing field list", "16 types live at once", "compressed record after redefinition", "undefined type hit", "undefined compressed type hit", "same layout re-emitted with the other byte order", "identical definition re-emitted", "same fields re-emitted with developer fields toggled", "undefined type in the first data record", "more than 256 definitions in one file"}
 }
 
 func (p *propC13) Prepare(seed uint64, tier string) int {
@@ -49,6 +49,13 @@ func (p *propC13) Gen(idx int) *Scenario {
 	}
 	rs := genStream(r, StreamOpts{FT: ft, NData: r.Range(10, 100), Arch: 2, Unknown: true, Dev: r.Chance(1, 4), Compressed: true, Unhosted: true, MaxFields: 5, Accum: false})
 	sc := &Scenario{V: 1, Property: "C13", Engine: "rx", Seed: p.seed, Index: idx, Params: map[string]string{}}
+	if idx%53 == 9 {
+		// 260-700 distinct definitions pass while one local type keeps its definition
+		sc.Family = "many-definitions"
+		sc.Media = []Medium{{ID: "m0", Records: manyDefsStream(r, r.Range(260, 700))}}
+		sc.Tasks = []Task{{ID: 0, Call: "Decode", In: "m0", Read: genPlan(r, false, true)}}
+		return sc
+	}
 	if r.Chance(1, 3) {
 		// re-emit a definition in use: once unchanged, or with only the byte order
 		// flipped (same message, same field triples), then send a record under it
@@ -197,6 +204,7 @@ func (p *propC13) Check(sc *Scenario, st *Stats) []Violation {
 	if redefined {
 		st.Nontrivial++
 	}
+	st.ProbeIf(sc.Family == "many-definitions", "more than 256 definitions in one file")
 	if mo.ErrOp >= 0 {
 		if rs.Ops[mo.ErrOp].Data.Comp {
 			st.Probe("undefined compressed type hit")
